@@ -273,7 +273,9 @@ def parse_header(source: BinaryIO) -> Tuple[OFXHeaderType, str]:
 
         # OFX header is read by nice clean machines, not meatbags -
         # should not contain 💩, 漢字, or what have you.
-        line = source.readline().decode("ascii")
+        # Non-ASCII bytes (e.g. of a message body sharing a line with the header)
+        # are replaced 1:1, which keeps character offsets equal to byte offsets.
+        line = source.readline().decode("ascii", errors="replace")
         if line.strip():
             found_header = True
             break
@@ -298,11 +300,11 @@ def parse_header(source: BinaryIO) -> Tuple[OFXHeaderType, str]:
         message = decoded_source[header_end_index:]
     else:
         logger.debug("No XML declaration - OFX version 1")
-        rawheader = line + "\n"
+        rawheader = line
         # First line is OFXHEADER; need to read next 8 lines for a fixed
         # total of 9 fields required by OFX v1 spec.
         for _ in range(8):
-            rawheader += source.readline().decode("ascii")
+            rawheader += source.readline().decode("ascii", errors="replace")
 
         header, header_end_offset = OFXHeaderV1.parse(rawheader)
 
